@@ -165,3 +165,19 @@ def string_frame(rng, nprng, n, ncols, label='label', label_pos=None, alphabets=
         data[c] = col
         classes[c] = an
     return data, cols, classes
+
+
+def xxh32_colliding_pairs(seed, want=2, prefix='user_', limit=1500000):
+    """Distinct strings with equal 32-bit xxhash digest under ``seed`` (birthday search, ~0.5 s): identity by digest is not identity."""
+    import xxhash
+    seen, out = {}, []
+    for i in range(limit):
+        v = '%s%d' % (prefix, i)
+        d = xxhash.xxh32(v.encode('utf-8'), seed=seed).intdigest()
+        if d in seen:
+            out.append((seen[d], v))
+            if len(out) >= want:
+                break
+        else:
+            seen[d] = v
+    return out
